@@ -252,7 +252,7 @@ class Score:
 
         for chord_raw in self.chords:
             chord = chord_raw.copy()
-            missing_instruments = set(instruments) - set(chord.instruments)
+            missing_instruments = [ins for ins in instruments if ins not in chord.instruments]
             chord_score = chord.score
             for instrument in missing_instruments:
                 chord_score[instrument] = Silence(chord.duration)
